@@ -22,7 +22,6 @@ func newTimeSeries(attack, label string) *timeSeries {
 	return &timeSeries{
 		attack: attack,
 		label:  label,
-		data:   tsz.New(0),
 	}
 }
 
@@ -33,7 +32,16 @@ func (ts *timeSeries) add(t uint64, v float64) error {
 		return errMonotonicTimestamp
 	}
 
-	ts.data.Push(t, v)
+	// tsz stores the distance of a series' first point from the start of
+	// its block in 27 bits (37 hours in milliseconds) and takes a point with
+	// timestamp zero for "no point yet", so that the next one is stored as
+	// a first point again. Start the block at the first point and keep
+	// timestamps above zero, or later points come out truncated.
+	if ts.data == nil {
+		ts.data = tsz.New(t + 1)
+	}
+
+	ts.data.Push(t+1, v)
 	ts.prev = t
 	ts.len++
 
@@ -41,13 +49,17 @@ func (ts *timeSeries) add(t uint64, v float64) error {
 }
 
 func (ts *timeSeries) iter() lttb.Iter {
+	if ts.data == nil { // no point yet
+		return func(int) ([]lttb.Point, error) { return nil, nil }
+	}
+
 	it := ts.data.Iter()
 	return func(count int) ([]lttb.Point, error) {
 		ps := make([]lttb.Point, 0, count)
 		for i := 0; i < count && it.Next(); i++ {
 			t, v := it.Values()
 			ps = append(ps, lttb.Point{
-				X: time.Duration(t * 1e6).Seconds(),
+				X: time.Duration((t - 1) * 1e6).Seconds(),
 				Y: v,
 			})
 		}
